@@ -151,6 +151,33 @@ Theorem inner_capture_switches_outer_off : forall g c e,
 Proof. exact Proofs.Errors.inner_capture_switches_outer_off. Qed.
 Print Assumptions inner_capture_switches_outer_off.
 
+(* growth: format_error_total for every error class of the model.  `constructed` lists what the
+   constructors of the classes build (PybtexError and its plain subclasses, PybtexSyntaxError /
+   UndefinedMacro / UnbalancedBraceError / PrematureEOF, TokenRequired over a Scanner and over a
+   LowLevelParser, AuxDataError) together with what their raise sites guarantee (scan_state_ok,
+   bib_state_ok; a file name that is None or text).  Every such error renders. *)
+Theorem format_error_total_by_class : forall e p,
+  constructed e ->
+  exists s lines,
+    format_error e p = Ok s /\
+    s = join [10%N] (map (fname_prefix e) (lines ++ [p ++ err_str e])) /\
+    infix (p ++ err_str e) s /\ infix (e_msg e) s.
+Proof. exact Proofs.Errors.format_error_total_by_class. Qed.
+Print Assumptions format_error_total_by_class.
+
+(* ... and the only PybtexError(message, filename) records excluded are F27's: a file name that is
+   neither None nor text is not well-formed *)
+Theorem only_bad_filename_excluded : forall id msg, ~ wf_err (new_pybtex_error id msg FnBad).
+Proof. exact Proofs.Errors.not_constructed_plain. Qed.
+Print Assumptions only_bad_filename_excluded.
+
+(* whatever Scanner.required raises, on any text, is one of the constructed errors (its state
+   satisfies scan_state_ok) *)
+Theorem scanner_required_constructed : forall text lit (f : option str) id e,
+  scanner_required text lit (fname_of f) id = inr e -> constructed e.
+Proof. exact Proofs.Errors.scanner_required_constructed. Qed.
+Print Assumptions scanner_required_constructed.
+
 (* ---- non-vacuity ---- *)
 Definition ex_aux : err :=
   mkErr 1 (s2l "illegal, another \bibstyle command") (FnStr (s2l "x.aux")) (SAux (Some 3%Z)) (CAux (Some (s2l "\bibstyle{b}"))).
@@ -194,3 +221,14 @@ Example scanner_example :
   /\ e_ctx e = CScan ([12%N; 13%N; 10%N; 133%N] ++ s2l " y") (Some 2%Z) 5%Z
   /\ format_error e (s2l "ERROR: ") = Ok ([102; 46; 98; 115; 116; 58; 32; 10; 102; 46; 98; 115; 116; 58; 32]%N ++ s2l "   ^^^" ++ [10%N] ++ s2l "f.bst: ERROR: syntax error in line 2: 'x' expected").
 Proof. eexists. split; [vm_compute; reflexivity|]. split; vm_compute; reflexivity. Qed.
+
+Example constructed_examples :
+  constructed (new_token_required 1 (s2l "'='") (mkScanner (s2l "@a{k," ++ [10%N] ++ s2l " t {x}}") (Some (s2l "f.bib")) 2 9))
+  /\ constructed (new_token_required_bib 2 (s2l "'='") (mkScanner (s2l "@a{k, t {x}}") None 1 8) (Some 0%Z))
+  /\ constructed (new_aux_error 3 (s2l "found no \bibdata command") (mkAuxctx (Some (s2l "x.aux")) None None)).
+Proof.
+  split; [|split].
+  - apply C_token. exists (s2l "@a{k," ++ [10%N] ++ s2l " t "), 123%N, (s2l "x}}"). vm_compute. repeat split; discriminate.
+  - apply C_token_bib. exists 0%Z. vm_compute. repeat split; discriminate.
+  - apply C_aux.
+Qed.
